@@ -620,29 +620,32 @@ class Component:
     def __init__(self, name, harness, srcs, pmodel_args, gen, nontrivial, rule, corpus=None,
                  cpu=None, extra=(), ldflags=(), env=None, sanitize=True, opt=None, classify=None,
                  impl_cmd_extra=(), ignore_l2=False, monitor_args=None, fresh_process=False,
-                 bb_ok=False, bb_srcs=(), bb_fresh=False):
+                 bb_ok=False, bb_srcs=(), bb_fresh=False, bb_skip_ops=(), bb_strip_ops=()):
         self.__dict__.update(locals())
 
 
-def check_component(ctx, comp, budget_mult=1, only_l1_boundary=False, cases=None):
-    """Build harness, run corpus + generated cases through impl and model, compare.
-    Returns list of failures: dict(kind, case, index, detail, crash)."""
+def build_component(ctx, comp):
+    """Build the harness of a component -> (exe, err).  A component that declares `bb_ok` is, when its white-box harness does
+    not compile against this tree (or when VERIF_FORCE_BLACKBOX=1 asks for it: a test switch), built in black-box mode; the
+    choice is remembered on the component (`comp._bb`) for the rest of the run."""
+    def bb_build():
+        return build_harness(ctx, comp.name, comp.harness, list(comp.srcs) + list(getattr(comp, "bb_srcs", ())),
+                             cpu=comp.cpu, extra=list(comp.extra) + ["-DHC_BLACKBOX"], ldflags=comp.ldflags,
+                             sanitize=comp.sanitize, opt=comp.opt)
     if getattr(comp, "_bb", False):      # black-box mode was chosen earlier in this run
-        exe, err = build_harness(ctx, comp.name, comp.harness, list(comp.srcs) + list(getattr(comp, "bb_srcs", ())),
-                                 cpu=comp.cpu, extra=list(comp.extra) + ["-DHC_BLACKBOX"], ldflags=comp.ldflags,
-                                 sanitize=comp.sanitize, opt=comp.opt)
+        return bb_build()
+    forced = getattr(comp, "bb_ok", False) and os.environ.get("VERIF_FORCE_BLACKBOX", "") not in ("", "0")
+    if forced:
+        exe, err = None, "error: VERIF_FORCE_BLACKBOX is set (white-box build not attempted)"
     else:
         exe, err = build_harness(ctx, comp.name, comp.harness, comp.srcs, cpu=comp.cpu, extra=comp.extra,
                                  ldflags=comp.ldflags, sanitize=comp.sanitize, opt=comp.opt)
-    cstat = ctx.cov["components"].setdefault(comp.name, {})
-    if exe is None and getattr(comp, "bb_ok", False) and not getattr(comp, "_bb", False):
+    if exe is None and getattr(comp, "bb_ok", False):
         # The harness reads private names of the library (statics, members of private structs) to print the L2 part and
         # they no longer exist under these names.  Black-box mode: the same harness compiled with -DHC_BLACKBOX uses the
         # public interface only and prints the L1 part only; state that the white-box build reset between cases is reset
         # by giving every case its own process.  The tie is then the observable correspondence alone (with the 10x budget).
-        exe2, err2 = build_harness(ctx, comp.name, comp.harness, list(comp.srcs) + list(getattr(comp, "bb_srcs", ())),
-                                   cpu=comp.cpu, extra=list(comp.extra) + ["-DHC_BLACKBOX"], ldflags=comp.ldflags,
-                                   sanitize=comp.sanitize, opt=comp.opt)
+        exe2, err2 = bb_build()
         if exe2 is not None:
             exe = exe2
             comp._bb = True
@@ -650,12 +653,40 @@ def check_component(ctx, comp, budget_mult=1, only_l1_boundary=False, cases=None
             if getattr(comp, "bb_fresh", False):
                 comp.fresh_process = True
             first = [l for l in err.split("\n") if "error" in l][:2]
-            msg = ("BLACKBOX %s: the white-box harness does not compile against this tree (%s); observable (L1) correspondence only, "
-                   "one process per case" % (comp.name, " / ".join(x.strip()[:160] for x in first)))
+            msg = ("BLACKBOX %s: the white-box harness does not compile against this tree (%s); observable (L1) correspondence only%s"
+                   % (comp.name, " / ".join(x.strip()[:160] for x in first), ", one process per case" if comp.fresh_process else ""))
             if msg not in ctx.soft_msgs:
                 ctx.soft_msgs.append(msg)
         else:
             err = err + "\n-- black-box build also fails --\n" + err2
+    return exe, err
+
+
+def bb_filter(ctx, comp, cases):
+    """Black-box mode only: cases that contain an op the harness can perform only with white-box access (`comp.bb_skip_ops`,
+    matched against the first token of each op line) are not run; their number is kept in the evidence.  Where the ops of
+    a case are independent calls that leave no state behind, such ops can be named in `comp.bb_strip_ops` instead: they
+    are removed from the cases and the rest of each case is run."""
+    skip = set(getattr(comp, "bb_skip_ops", ()) or ())
+    strip = set(getattr(comp, "bb_strip_ops", ()) or ())
+    if not getattr(comp, "_bb", False) or not (skip or strip):
+        return cases
+    cstat = ctx.cov["components"].setdefault(comp.name, {})
+    if strip:
+        nops = sum(len(c) for c in cases)
+        cases = [[op for op in c if op.split(" ", 1)[0] not in strip] for c in cases]
+        cstat["blackbox_ops_not_run"] = cstat.get("blackbox_ops_not_run", 0) + nops - sum(len(c) for c in cases)
+        cases = [c for c in cases if c]
+    kept = [c for c in cases if not any(op.split(" ", 1)[0] in skip for op in c)]
+    cstat["blackbox_cases_not_run"] = cstat.get("blackbox_cases_not_run", 0) + len(cases) - len(kept)
+    return kept
+
+
+def check_component(ctx, comp, budget_mult=1, only_l1_boundary=False, cases=None):
+    """Build harness, run corpus + generated cases through impl and model, compare.
+    Returns list of failures: dict(kind, case, index, detail, crash)."""
+    exe, err = build_component(ctx, comp)
+    cstat = ctx.cov["components"].setdefault(comp.name, {})
     if exe is None:
         # the current tree does not compile with our harness: correspondence is broken
         return [{"kind": "BUILD", "case": [], "index": -1, "detail": {"stderr": err}, "crash": None}]
@@ -666,6 +697,7 @@ def check_component(ctx, comp, budget_mult=1, only_l1_boundary=False, cases=None
         cases = cases + comp.gen(rng, ctx.tier, budget_mult)
     else:
         ncorpus = 0
+    cases = bb_filter(ctx, comp, cases)
     fails = run_cases(ctx, comp, exe, cases)
     cstat["cases"] = cstat.get("cases", 0) + len(cases)
     cstat["corpus_cases"] = ncorpus
@@ -676,7 +708,13 @@ def run_cases(ctx, comp, exe, cases, count=True):
     env = dict(ASAN_ENV)
     if comp.env:
         env.update(comp.env)
-    if getattr(comp, "fresh_process", False):
+    # black-box mode with one process per case: only the implementation needs it (the library's state cannot be reset from
+    # outside); the model and the monitor start every `case` from their initial state anyway and read their shard in one process
+    impl_per_case = bool(getattr(comp, "fresh_process", False) and getattr(comp, "_bb", False))
+    if impl_per_case:
+        nshards = min(NCPU, max(1, len(cases)))
+        shards = [cases[i::nshards] for i in range(nshards)]
+    elif getattr(comp, "fresh_process", False):
         # one process per case: state that survives across calls (statics, caches, lazily built tables) starts fresh
         nshards = len(cases)
         shards = [[c] for c in cases]
@@ -688,7 +726,15 @@ def run_cases(ctx, comp, exe, cases, count=True):
     def work(k):
         sh = shards[k]
         tag = "%s-%d-%d" % (comp.name, k, time.time_ns() % 1000000)
-        io, ic = run_stream([exe] + list(comp.impl_cmd_extra), sh, ctx.tmp, tag + "i", env=env)
+        if impl_per_case:
+            io, ic = {}, {}
+            for i, case in enumerate(sh):
+                o1, c1 = run_stream([exe] + list(comp.impl_cmd_extra), [case], ctx.tmp, "%si%d" % (tag, i), env=env)
+                io[i] = o1.get(0, [])
+                if 0 in c1:
+                    ic[i] = c1[0]
+        else:
+            io, ic = run_stream([exe] + list(comp.impl_cmd_extra), sh, ctx.tmp, tag + "i", env=env)
         mo, mc = run_stream([PMODEL] + list(comp.pmodel_args), sh, ctx.tmp, tag + "m")
         vo = None
         if comp.monitor_args:
@@ -887,7 +933,7 @@ def process_failures(ctx, comp, fails):
         found = None
         if os.path.exists(exe):
             rng = ctx.rng.fork(comp.name + ":search")
-            more = comp.gen(rng, ctx.tier, 10)
+            more = bb_filter(ctx, comp, comp.gen(rng, ctx.tier, 10))
             f2 = [x for x in run_cases(ctx, comp, exe, more) if x["kind"] == "L1"]
             f2 = [x for x in f2 if not match_known(ctx, x)]
             if f2:
@@ -977,8 +1023,7 @@ def replay(ctx, components, path):
         ctx.cleanup()
         return 1
     comp = comp[0]
-    exe, err = build_harness(ctx, comp.name, comp.harness, comp.srcs, cpu=comp.cpu, extra=comp.extra,
-                             ldflags=comp.ldflags, sanitize=comp.sanitize, opt=comp.opt)
+    exe, err = build_component(ctx, comp)      # white-box, or black-box where the tree no longer compiles white-box
     if exe is None:
         print("replay: harness does not build: " + err)
         ctx.cleanup()
